@@ -103,6 +103,23 @@ fn main() {
                 }
             }
         }
+        "show-gen" => {
+            // development aid: print the module generated for a replay file (registry + sdesc)
+            let body: serde_json::Value =
+                serde_json::from_str(&std::fs::read_to_string(&args[2]).unwrap()).unwrap();
+            let r = reg::from_json(&body["replay"]["registry"]);
+            let d: sdesc::SDesc = serde_json::from_value(body["replay"]["sdesc"].clone()).unwrap_or_default();
+            println!("{}", serde_json::to_string(&d).unwrap());
+            let (g, _) = gen::generate_model(&r, &d);
+            match g {
+                Ok(g) => {
+                    for (p, it) in &g.cm.items {
+                        println!("{}: {}", p.join("::"), it.tokens);
+                    }
+                }
+                Err(e) => println!("generation failed: {e}"),
+            }
+        }
         "list" => {
             for m in &monitors {
                 println!("{}", m.meta.id);
